@@ -1,6 +1,6 @@
 (** Executable entry point of the C19 model (nested dictionaries, pytree packing,
     spectral slicing/padding) and its extraction.  ExtrOcamlBasic only. *)
-From Dino Require Import Base.Ops Base.Sums Model.Trees Extract.Common.
+From Dino Require Import Base.Ops Base.Sums Model.Trees Model.Attrs Extract.Common.
 Require Extraction.
 Require Import ExtrOcamlBasic.
 
@@ -107,6 +107,68 @@ Definition enc_opt {B} (f : B -> list Q) (r : option B) : list Q :=
   match r with None => [0%Q] | Some x => 1%Q :: f x end.
 
 Definition mat_of (M L : nat) (data : list Q) : list (list Q) := chunks L M data.
+
+
+(** ** shape tables and attrs (Model/Attrs.v) *)
+Definition enc_list (l : list Z) : list Z := Z.of_nat (length l) :: l.
+Definition enc_table (t : table) : list Z :=
+  Z.of_nat (length t) :: flat_map (fun sd => enc_list (fst sd) ++ enc_list (snd sd)) t.
+Definition dec_opt (flag v : Z) : option Z := if Z.eqb flag 0 then None else Some v.
+(** additional coords: n (name ndim d1..dndim)^n *)
+Fixpoint dec_addl (n : nat) (s : list Z) : list (Z * shape) :=
+  match n with
+  | O => []
+  | S n' => match s with
+            | name :: r => match dec_key r with
+                           | Some (sh, r') => (name, sh) :: dec_addl n' r'
+                           | None => []
+                           end
+            | [] => []
+            end
+  end.
+
+Definition tolq0 : Q := 1 # 100000000.
+Definition tolq1 : Q := 1001 # 100000000.
+
+(** attrs: n (key tag payload)^n; tag 0 int | 1 str | 2 float index into arrs[0] | 3 list = arrs[index] *)
+Fixpoint dec_attrs (n : nat) (s : list Z) (arrs : list (list Q)) : option (@attrs Q) :=
+  match n with
+  | O => Some []
+  | S n' =>
+      match dec_key s with
+      | Some (k, tag :: r) =>
+          let cont (v : @aval Q) (r' : list Z) :=
+              match dec_attrs n' r' arrs with Some l => Some ((k, v) :: l) | None => None end in
+          match tag, r with
+          | 0%Z, z :: r' => cont (AInt z) r'
+          | 1%Z, _ => match dec_key r with Some (x, r') => cont (AStr x) r' | None => None end
+          | 2%Z, j :: r' => cont (ANum (nth (Z.to_nat j) (arr arrs 0) 0%Q)) r'
+          | 3%Z, j :: r' => cont (AList (arr arrs (Z.to_nat j))) r'
+          | _, _ => None
+          end
+      | _ => None
+      end
+  end.
+Definition enc_aval (v : @aval Q) : list Q :=
+  match v with
+  | AInt z => zq [0%Z; z]
+  | AStr x => zq (1%Z :: enc_key x)
+  | ANum x => [2%Q; x]
+  | AList l => 3%Q :: inject_Z (Z.of_nat (length l)) :: l
+  end.
+Definition enc_attrs (a : @attrs Q) : list Q :=
+  inject_Z (Z.of_nat (length a)) :: flat_map (fun kv => zq (enc_key (fst kv)) ++ enc_aval (snd kv)) a.
+Definition enc_vertical (v : option (@vertical Q)) : list Q :=
+  match v with
+  | None => [0%Q]
+  | Some (VSigma b) => 1%Q :: inject_Z (Z.of_nat (length b)) :: b
+  | Some (VLayer n) => [2%Q; inject_Z n]
+  | Some (VPressure c) => 3%Q :: inject_Z (Z.of_nat (length c)) :: c
+  end.
+Definition enc_grid (g : @grid Q) : list Q :=
+  zq [g_lw g; g_tw g; g_lon_nodes g; g_lat_nodes g] ++ zq (enc_key (g_spacing g)) ++
+  [g_offset g; g_radius g] ++ zq (enc_key (g_impl g)) ++
+  match g_mesh g with None => [0%Q] | Some m => 1%Q :: zq (enc_key m) end.
 
 Definition run_C19 (cmd : Z) (ints : list Z) (arrs : list (list Q)) : option (list Q) :=
   match cmd with
@@ -246,6 +308,66 @@ Definition run_C19 (cmd : Z) (ints : list Z) (arrs : list (list Q)) : option (li
                                         inject_Z (Z.of_nat (length (nth 0 y []))) :: concat y) r)
             | _ => None
             end
+  (* 30: _infer_dims_shape_and_coords table / 31: data_to_xarray table;
+         ints = K M1 M2 N1 N2 has_t T has_s S naddl addl.. *)
+  | 30%Z | 31%Z =>
+      match ints with
+      | k :: m1 :: m2 :: n1 :: n2 :: ht :: t :: hs :: sm :: na :: r =>
+          let addl := dec_addl (Z.to_nat na) r in
+          let tb := (if Z.eqb cmd 30 then shape_to_dims else xarray_table)
+                      k [m1; m2] [n1; n2] (dec_opt ht t) (dec_opt hs sm) addl in
+          Some (match tb with None => zq [0%Z] | Some t => zq (1%Z :: enc_table t) end)
+      | _ => None
+      end
+  (* 32: admissible K modal nodal *)
+  | 32%Z => match ints with
+            | k :: m1 :: m2 :: n1 :: n2 :: _ => Some [qofb (admissible k [m1; m2] [n1; n2])]
+            | _ => None
+            end
+  (* 40: CoordinateSystem.asdict: ints = lw tw ln lt, spacing, impl, has_mesh, mesh, vkind [layers];
+         arrs[0] = [offset; radius], arrs[1] = boundaries / centers *)
+  | 40%Z =>
+      match ints with
+      | lw :: tw :: ln :: lt :: r =>
+          match dec_key r with
+          | Some (sp, r1) =>
+              match dec_key r1 with
+              | Some (impl, hm :: r2) =>
+                  match dec_key r2 with
+                  | Some (mesh, vk :: r3) =>
+                      let g := mkGrid lw tw ln lt sp (scalar arrs 0 0) (scalar arrs 0 1) impl
+                                      (if Z.eqb hm 0 then None else Some mesh) in
+                      let v := match vk with
+                               | 1%Z => VSigma (arr arrs 1)
+                               | 2%Z => VLayer (hd 0%Z r3)
+                               | _ => VPressure (arr arrs 1)
+                               end in
+                      Some (match cs_asdict g v with
+                            | None => [0%Q]
+                            | Some a => 1%Q :: enc_attrs a ++ [qofb (grid_ok g); qofb (vertical_ok tolq0 tolq1 v)]
+                            end)
+                  | _ => None
+                  end
+              | _ => None
+              end
+          | None => None
+          end
+      | _ => None
+      end
+  (* 41: coordinate_system_from_attrs: ints = n attrs..; arrs[0] = floats, arrs[j] = lists *)
+  | 41%Z =>
+      match ints with
+      | n :: r =>
+          match dec_attrs (Z.to_nat n) r arrs with
+          | Some a =>
+              Some (match from_attrs tolq0 tolq1 a with
+                    | None => [0%Q]
+                    | Some (g, v) => 1%Q :: enc_grid g ++ enc_vertical v
+                    end)
+          | None => None
+          end
+      | [] => None
+      end
   | _ => None
   end.
 
